@@ -663,7 +663,15 @@ func runC16(c *Ctx) {
 			if ev == nil {
 				continue
 			}
-			isEv := func(v ssa.Value) bool { okV, _ := allOrigins(v, oIsValue(ev)); return okV }
+			// (a variable that holds the error of whichever Read ran last: on a path from this Read that executes no
+			// other Read — the search below cuts at every other one — it holds this Read's error)
+			isEv := func(v ssa.Value) bool {
+				if okV, _ := allOrigins(v, oIsValue(ev)); okV {
+					return true
+				}
+				okAll, _ := allOrigins(v, oCall(1, "(rt.CSVReader).Read"))
+				return okAll && someOrigin(v, oIsValue(ev))
+			}
 			atEOF := func(cond ssa.Value, branch bool) bool {
 				cnd, b := stripNot(cond, branch)
 				if call := asCall(cnd); call != nil && calleeName(&call.Call) == "errors.Is" && len(call.Call.Args) == 2 {
